@@ -290,5 +290,6 @@ def check(tier):
             ck.add_mutant(name, m, w, "harness.C17", "model_job", dict(cases=[("lineage", True)]), fresh=True)
         else:
             ck.add_mutant(name, m, w, "harness.C17", "term_job", dict(cases=[("SumTerm", 3)]))
+    ck.validate = ['copies']
     ck.run()
     return ck.finish(replay=REPLAY)
